@@ -80,3 +80,10 @@ Definition table_injective (t : lookup_table) : bool :=
   (if String.eqb (t_component t) "value" then nodup_strings (map snd (t_entries t))
    else if String.eqb (t_component t) "key" then nodup_strings (map fst (t_entries t))
    else false).
+
+(* the configuration is read-only during a compilation: the only write to a
+   utils.Params field reachable from the compile roots that is admitted is the
+   documented symbol table of the intern() builtin (parameter state by design:
+   LoadSymbolIDs/SaveSymbolIDs) *)
+Definition param_write_allowed (s : site) : bool :=
+  String.eqb (s_func s) "Intern.intern" && String.eqb (s_expr s) "SymbolIDs".
